@@ -1900,3 +1900,154 @@ class PrintFileFaults(Unit):
 
 
 UNITS_C12 = [WriteOutput, PrintFileFaults]
+
+
+# ------------------------------------------------------------------ main --json over a directory of ANY size
+class CWriteOutputN(Contract):
+    """parseAndWriteOutput (proved in WriteOutput): here only recorded - which file, which output directory, --clean"""
+    target = PM + "parseAndWriteOutput"
+
+    def model(self, it, file_path, output_dir, config, clean):
+        g = it.ctx.ghost
+        g.setdefault('jactions', []).append((file_path, output_dir, clean))
+        g.setdefault('jconfigs', []).append(config)
+        return None
+
+
+BMC_DIR = "/var/lib/phosphor-logging/extensions/pels/logs/"
+BMC_ARCHIVE = "/var/lib/phosphor-logging/extensions/pels/logs/archive"
+
+
+def spec_pels_dir(ctx, args):
+    """the documented rule: outside a BMC the directory is -p's argument; on a BMC the log directory, or its archive with -A"""
+    if branch(ufun('fs_isdir', PyStr, z3.BoolSort())(lit(BMC_DIR))):
+        return BMC_ARCHIVE if branch(truth(field(args, 'archive'))) else BMC_DIR
+    return field(args, 'path')
+
+
+def spec_out_dir(ctx, args):
+    o = field(args, 'output_dir')
+    return o if o is not None else spec_pels_dir(ctx, args)
+
+
+def join_dir(d, nm):
+    return mkstr([Opq(ufun('path_join', PyStr, PyStr, PyStr)(str_term(d), str_term(nm)))])
+
+
+class MainJsonInv(LoopInv):
+    """conversions so far == ACT(i): ACT(i+1) = ACT(i) ++ [(join(dir, name_i), outdir, clean)] iff name_i passes the
+    extension filter"""
+    func = PM + "main"
+    loop = 1
+    modifies_locals = ('file',)
+
+    def act(self):
+        return z3.Function('json_actions_upto', z3.IntSort(), Val)
+
+    def heap_targets(self, it, fr):
+        return []
+
+    def base(self, ctx):
+        if not ctx.ghost.get('mj_base'):
+            ctx.ghost['mj_base'] = True
+            ctx.assume(self.act()(0) == list_term(ctx.ghost.setdefault('jactions', [])))
+
+    def havoc(self, it, fr, i):
+        self.base(it.ctx)
+        it.ctx.ghost['jactions'][:] = [Chunk(self.act()(zint(i)))]
+
+    def inv(self, it, fr, i):
+        self.base(it.ctx)
+        ctx = it.ctx
+        if not no_mutation(ctx):
+            return False
+        return list_term(ctx.ghost['jactions']) == self.act()(zint(i))
+
+    def variant(self, it, fr, i):
+        return None
+
+    def unfold(self, it, fr, i):
+        ctx = it.ctx
+        nm = ctx.env.d.names.elem(i)
+        ext = field(fr.locals['config'], 'extension')
+        A = self.act()
+        keep = True
+        if ext is not None and not (isinstance(ext, str) and ext == ''):
+            keep = Eq(mkstr([Opq(ufun('splitext_ext', PyStr, PyStr)(str_term(nm)))]), ext)
+        if branch(keep):
+            ev = (join_dir(spec_pels_dir(ctx, fr.locals['args']), nm), spec_out_dir(ctx, fr.locals['args']),
+                  field(fr.locals['args'], 'clean'))
+            ctx.assume(A(zint(i) + 1) == v_snoc(A(zint(i)), val_term(ev)))
+        else:
+            ctx.assume(A(zint(i) + 1) == A(zint(i)))
+
+
+class MainEnvN(FsEnvN):
+    def __init__(self, d, ns):
+        FsEnvN.__init__(self, d)
+        self.ns = ns
+
+    def parse_args(self, it):
+        return self.ns
+
+
+class MainJsonN(Unit):
+    prop = "C11"
+    name = "main --json, any number of files"
+    target = PM + "main"
+    io_faults = False
+    max_paths = 20000
+    invariants = [MainJsonInv]
+    contracts = [CWriteOutputN]
+    env = None
+
+    def inputs(self, S):
+        ns = {}
+        for b in OPT_BOOLS:
+            ns[b] = S.bool("opt_" + b)
+        ns['json'] = True
+        for s_ in OPT_STRS:
+            ns[s_] = None
+        for s_ in ('extension', 'output_dir'):
+            if S.choice("has_" + s_, [None, 'x']) is not None:
+                ns[s_] = S.opaque_str("val_" + s_)
+                S.assume(ufun('slen', PyStr, z3.IntSort())(str_term(ns[s_])) > 0)
+        ns['path'] = ROOT
+        ns['severities'] = None
+        self._ns = ns
+        return dict()
+
+    def setup_ctx(self, ctx):
+        d = DirN(ctx)
+        self._d = d
+        self._nsobj = None
+
+    def call(self, it, inp):
+        ctx = it.ctx
+        ctx.env = MainEnvN(self._d, Obj(None, dict(self._ns)))
+        return it.call(lookup_qualname(self.target), [])
+
+    def check(self, P, inp, old, out):
+        if not P.symbolic:
+            return
+        ctx = P.ctx
+        ns = self._ns
+        P.prove(not out.returned and out.exc_class is SystemExit, "main ends with sys.exit")
+        acts = ctx.ghost.get('jactions', [])
+        usage = out.exc is not None and out.exc.args and not isinstance(out.exc.args[0], int) and out.exc.args[0] is not None
+        if usage:
+            P.prove(acts == [], "a usage error (bad directory) exits before any conversion")
+            return
+        P.prove(out.exc is not None and out.exc.args in ((0,), ()), "exit status 0")
+        inv = list(ctx.invariants.values())[0] if ctx.invariants else None
+        P.prove(inv is not None, "the per-file loop was entered through its invariant")
+        if inv is None:
+            return
+        n = dirn_fns()[0]
+        P.prove(list_term(acts) == inv.act()(n),
+                "conversions == ACT(n): one parseAndWriteOutput per top-level name that passes the extension filter, in listing order, "
+                "with the output directory (given or the PEL directory) and --clean passed through; nothing for the sub-directory")
+        P.prove(inv.act()(0) == v_nil(), "no conversion before the first file")
+        P.prove([e for e in ctx.fs if e[0] not in ('open_r', 'walk')] == [], "main itself touches no file")
+        cfgs = ctx.ghost.get('jconfigs', [])
+        P.prove(all(c is cfgs[0] for c in cfgs), "every conversion gets the one Config of this run")
